@@ -72,7 +72,7 @@ theorem filter_ne_filter_eq {α : Type} (l : List α) (f : α → Nat) (p q : Na
   · simp [hx]
 
 /-- every member: the pending approvals, the client-side bookkeeping and the subscriptions of every other peer stay
-    exactly as they are (bindings: see `drop_exact` for the repaired member, `Reg.dropPeer_any_member` otherwise) -/
+    exactly as they are (bindings: see `drop_exact` for the repaired member, `Reg.removePeer_any_member` otherwise) -/
 theorem drop_others (c : Cfg) (s : St) (hs : Reg.Sane s.reg) (p q : Nat) (hq : q ≠ p) :
     Reg.subsOf (drop c s p).reg q = Reg.subsOf s.reg q ∧
     (drop c s p).pend.filter (·.peer = q) = s.pend.filter (·.peer = q) ∧
@@ -85,7 +85,7 @@ theorem drop_others (c : Cfg) (s : St) (hs : Reg.Sane s.reg) (p q : Nat) (hq : q
     refine ⟨?_, filter_ne_filter_eq s.pend (·.peer) p q hq, filter_ne_filter_eq s.csubs (·.peer) p q hq,
       filter_ne_filter_eq s.cbinds (·.peer) p q hq⟩
     unfold Reg.subsOf
-    rw [(Reg.dropPeer_any_member c.reg s.reg hs p).1]
+    rw [(Reg.removePeer_any_member c.reg s.reg hs p).1]
     exact filter_ne_filter_eq s.reg.subs (·.peer) p q hq
   · have hp' : s.alive.contains p = false := by simpa using hp
     rw [hp']
@@ -128,6 +128,46 @@ theorem dropEntity_absent (c : Cfg) (s : St) (p : Nat) (ent : List Nat)
   unfold dropEntity
   rw [hex]
   simp
+
+/-- every member: a removal entry for the device information entity [0] changes nothing in the composed world -/
+theorem removeEntity_zero (c : Cfg) (s : St) (p : Nat) : removeEntity c s p [0] = s := by
+  unfold removeEntity; simp
+
+/-- every member: on the domain of `dropEntity` (a connected peer, an entity other than [0] announced with features)
+    a removal entry is that cascade in every component -/
+theorem removeEntity_eq_dropEntity (c : Cfg) (s : St) (p : Nat) (ent : List Nat) (h0 : ent ≠ [0])
+    (hp : s.alive.contains p = true) (hex : ((s.reg.rem p).map (·.ent)).contains ent = true) :
+    (removeEntity c s p ent).reg.subs = (dropEntity c s p ent).reg.subs ∧
+    (removeEntity c s p ent).reg.binds = (dropEntity c s p ent).reg.binds ∧
+    (removeEntity c s p ent).pend = (dropEntity c s p ent).pend ∧
+    (removeEntity c s p ent).armed = (dropEntity c s p ent).armed ∧
+    (removeEntity c s p ent).csubs = (dropEntity c s p ent).csubs ∧
+    (removeEntity c s p ent).cbinds = (dropEntity c s p ent).cbinds ∧
+    (removeEntity c s p ent).alive = (dropEntity c s p ent).alive := by
+  have hk : (Reg.knownEnts s.reg p).contains ent = true := by
+    simp only [Reg.knownEnts, List.contains_eq_mem, List.mem_append, decide_eq_true_eq] at hex ⊢
+    exact Or.inl hex
+  have hr := Reg.removeEntity_eq_dropEntity c.reg s.reg p ent h0 hex
+  unfold removeEntity dropEntity
+  rw [if_neg h0, hp, hk, hex]
+  exact ⟨hr.1, hr.2.1, rfl, rfl, rfl, rfl, rfl⟩
+
+/-- repaired code: an entity of a connected peer that is known WITHOUT features goes with everything that refers to it -/
+theorem removeEntity_bare_exact (s : St) (p : Nat) (ent : List Nat) (h0 : ent ≠ [0]) (hp : s.alive.contains p = true)
+    (hex : ((s.reg.rem p).map (·.ent)).contains ent = false) (hb : (s.reg.bare p).contains ent = true) :
+    (removeEntity Cfg.clean s p ent).reg.subs = s.reg.subs.filter (fun e => !(e.peer = p && e.cEnt = ent)) ∧
+    (removeEntity Cfg.clean s p ent).reg.binds = s.reg.binds.filter (fun e => !(e.peer = p && e.cEnt = ent)) ∧
+    (removeEntity Cfg.clean s p ent).pend = s.pend.filter (fun x => !ofEntity p ent x) ∧
+    (removeEntity Cfg.clean s p ent).armed = s.armed.filter (fun x => !ofEntity p ent x) ∧
+    (removeEntity Cfg.clean s p ent).csubs = s.csubs.filter (fun b => !(b.peer = p && b.ent = ent)) ∧
+    (removeEntity Cfg.clean s p ent).cbinds = s.cbinds.filter (fun b => !(b.peer = p && b.ent = ent)) := by
+  have hk : (Reg.knownEnts s.reg p).contains ent = true := by
+    simp only [Reg.knownEnts, List.contains_eq_mem, List.mem_append, decide_eq_true_eq] at hb ⊢
+    exact Or.inr hb
+  have hr := Reg.removeEntity_bare_exact s.reg p ent h0 hex hb
+  unfold removeEntity
+  rw [if_neg h0, hp, hk, clean_entAppr, clean_reg]
+  exact ⟨hr.1, hr.2.1, rfl, rfl, rfl, rfl⟩
 
 /-! ### nothing is written to a removed connection -/
 
@@ -221,20 +261,22 @@ theorem step_armedAlive (c : Cfg) (s : St) (h : ArmedAlive s) (op : Op)
       simp only [List.contains_eq_mem, List.mem_filter, decide_eq_true_eq] at this ⊢
       exact ⟨this, by simpa using hne.1⟩
   | dropEnt p e =>
-    simp only [step, dropEntity]
+    simp only [step, removeEntity]
     split
     · exact h
     · split
       · exact h
-      · intro x hx
-        dsimp only at hx ⊢
-        have hx' : x ∈ s.armed := by
-          by_cases ht : c.entityKeepsApprovals = true
-          · rw [ht] at hx; simpa using hx
-          · have ht' : c.entityKeepsApprovals = false := by simpa using ht
-            rw [ht'] at hx
-            exact (List.mem_filter.mp hx).1
-        exact h x hx'
+      · split
+        · exact h
+        · intro x hx
+          dsimp only at hx ⊢
+          have hx' : x ∈ s.armed := by
+            by_cases ht : c.entityKeepsApprovals = true
+            · rw [ht] at hx; simpa using hx
+            · have ht' : c.entityKeepsApprovals = false := by simpa using ht
+              rw [ht'] at hx
+              exact (List.mem_filter.mp hx).1
+          exact h x hx'
 
 /-- along a history every drop happens while no approval timer of the dropped peer is running -/
 def calm (c : Cfg) : St → List Op → Bool
@@ -330,8 +372,9 @@ theorem reg_step_entries (c : Reg.Cfg) (s : Reg.St) (op : Reg.Op) :
       fun e he => Or.inl (by simp only [Reg.step] at he; rw [Reg.binds_unsub] at he; exact he)⟩
   | drop p => exact ⟨fun e he => Or.inl (List.mem_filter.mp he).1, fun e he => Or.inl (List.mem_filter.mp he).1⟩
   | dropEnt p ent =>
-    have := Reg.dropEntity_shape c s p ent
+    have := Reg.removeEntity_shape c s p ent
     exact ⟨fun e he => Or.inl (this.1.subset he), fun e he => Or.inl (this.2.1.subset he)⟩
+  | bareEnt p ent => exact ⟨fun e he => Or.inl he, fun e he => Or.inl he⟩
   | subsPass p ent => exact ⟨fun e he => Or.inl (List.mem_filter.mp he).1, fun e he => Or.inl he⟩
   | bindsPass p ent => exact ⟨fun e he => Or.inl he, fun e he => Or.inl (List.mem_filter.mp he).1⟩
 
@@ -379,7 +422,7 @@ theorem step_reach_clean (s : St) (h : Reach s) (op : Op) : Reach (step Cfg.clea
     split
     · exact h
     · have hx := Reg.c10_drop_exact s.reg h.sane p
-      refine ⟨h.sane.of_sublist List.filter_sublist List.filter_sublist rfl, ?_, ?_⟩
+      refine ⟨h.sane.of_sublist List.filter_sublist List.filter_sublist rfl rfl, ?_, ?_⟩
       · intro e he
         dsimp only at he ⊢
         rw [clean_reg, hx.1] at he
@@ -397,14 +440,16 @@ theorem step_reach_clean (s : St) (h : Reach s) (op : Op) : Reach (step Cfg.clea
         simp only [List.contains_eq_mem, List.mem_filter, decide_eq_true_eq] at this ⊢
         exact ⟨this, by simpa using hne⟩
   | dropEnt p e =>
-    simp only [step, dropEntity]
+    simp only [step, removeEntity]
     split
     · exact h
     · split
       · exact h
-      · have hs := Reg.dropEntity_shape Reg.Cfg.clean s.reg p e
-        exact ⟨Reg.dropEntity_sane_clean s.reg h.sane p e,
-          fun x hx => h.live.1 x (hs.1.subset hx), fun x hx => h.live.2 x (hs.2.1.subset hx)⟩
+      · split
+        · exact h
+        · have hs := Reg.removeEntity_shape Reg.Cfg.clean s.reg p e
+          exact ⟨Reg.removeEntity_sane_clean s.reg h.sane p e,
+            fun x hx => h.live.1 x (hs.1.subset hx), fun x hx => h.live.2 x (hs.2.1.subset hx)⟩
   | reconnect p =>
     simp only [step, reconnect]
     split
@@ -416,14 +461,14 @@ theorem step_reach_clean (s : St) (h : Reach s) (op : Op) : Reach (step Cfg.clea
         dsimp only at he ⊢
         have hl := h.live.1 e he
         have hne : e.peer ≠ p := by intro hc; rw [hc, hp'] at hl; exact Bool.noConfusion hl
-        rw [if_neg hne]
-        exact h.sane.1 e he
+        have := h.sane.1 e he
+        simpa only [Reg.knownEnts, if_neg hne] using this
       · intro e he
         dsimp only at he ⊢
         have hl := h.live.2 e he
         have hne : e.peer ≠ p := by intro hc; rw [hc, hp'] at hl; exact Bool.noConfusion hl
-        rw [if_neg hne]
-        exact h.sane.2 e he
+        have := h.sane.2 e he
+        simpa only [Reg.knownEnts, if_neg hne] using this
       · intro e he
         have := h.live.1 e he
         simp only [List.contains_cons, Bool.or_eq_true] at this ⊢
